@@ -22,6 +22,7 @@ RULE = ('random core files (variables with differing dimension subsets, masks,'
         'identity; distinct = distinct (file spec, selectors) digests.')
 RULE += (" Every tenth receiver is the object one of the library's READERS returns for a valid image written by the independent codecs (CAMx memory-mapped and record readers, bpch1, bpch2, arlpackedbit, ffi1001); the call is drawn from the dimensions of the open file and judged by the same oracle on a snapshot of that file.")
 RULE += (' One receiver from disk in three (plain files) is written with netCDF4 directly, as other tools write archive files: float data variables packed (int16 with scale_factor/add_offset), masks as _FillValue; the oracle snapshots what the opened file delivers.')
+RULE += (' One case in 25: two index lists of one length (points) over a variable of a foreign file that has missing cells and no missing code of its own, one of the points being such a cell.')
 ASSUMPTIONS = [
     'oracle = numpy take/basic slicing applied axis by axis to plain copies',
     'index values are drawn inside [-n, n-1] (in-domain); out-of-range '
